@@ -2,8 +2,12 @@
 (***************************************************************************)
 (* The abstract API machine of ArduinoJson: what a user of JsonDocument,   *)
 (* JsonVariant, JsonArray, JsonObject, MemberProxy and ElementProxy can    *)
-(* observe, as a plain ordered-tree model.  No pools, no slots, no string  *)
-(* storage: those live in SlotPool.tla, which must refine this module.     *)
+(* observe, as a plain ordered-tree model.  No pools, no slots: those live  *)
+(* in SlotPool.tla, which must refine this module.  Of string storage only *)
+(* what JsonString::isLinked() reports is modelled (values "s" / "l"): a   *)
+(* string given through a copying kind is stored by copy whatever the      *)
+(* target held before, copies between values keep the storage, and         *)
+(* deserialization always copies.                                          *)
 (*                                                                         *)
 (* State  docs : DocId -> [root : Value, ovf : BOOLEAN]                    *)
 (*        refs : 1..NRefs -> [st, d, p]     the reference table            *)
@@ -112,7 +116,7 @@ Res(docs, refs, ret) == [docs |-> docs, refs |-> refs, ret |-> ret]
 \* target cannot be resolved is therefore not determined by the abstract
 \* state and is reported as "dontcare"); converters returning bool report the
 \* store itself
-VoidConv(v) == v.t \in {"n", "s", "r"}
+VoidConv(v) == v.t \in {"n", "s", "l", "r"}
 
 ----------------------------------------------------------------------------
 (* The operations *)
@@ -198,7 +202,7 @@ DoCopy(S, o) ==
 \* A copied string is independent of its source from the moment the call returns, whatever the
 \* source was (C14), so the result is simply the prefix.
 PlainTokens == {"a", "ab", "b", "hello", "42", "1.5", "-3e2", "x y", "true", "key", "null", "a b"}
-PrefixSource(S, o) == LET q == ReadRes(S, o.sb, o.si, o.sp) IN q.ok /\ q.v.t = "s" /\ q.v.s \in PlainTokens /\ o.i <= Len(q.v.s)
+PrefixSource(S, o) == LET q == ReadRes(S, o.sb, o.si, o.sp) IN q.ok /\ IsStr(q.v) /\ q.v.s \in PlainTokens /\ o.i <= Len(q.v.s)
 DoSetPrefix(S, o) ==
   LET q == ReadRes(S, o.sb, o.si, o.sp)
       w == WriteRes(S, o.tb, o.ti, o.tp) IN
